@@ -1790,6 +1790,12 @@ feature! {
         }
 
         fn register_callsite(&self, metadata: &'static Metadata<'static>) -> Interest {
+            // An empty `Vec` has no opinion, like `Option::None`: it must not
+            // disable callsites for the subscribers it is combined with.
+            if self.is_empty() {
+                return Interest::always();
+            }
+
             // Return highest level of interest.
             let mut interest = Interest::never();
             for s in self {
@@ -1869,6 +1875,12 @@ feature! {
             // If downcasting to `Self`, return a pointer to `self`.
             if id == TypeId::of::<Self>() {
                 return Some(NonNull::from(self).cast());
+            }
+
+            // An empty `Vec` is equivalent to `Option::None`: its `OFF` max
+            // level hint only applies if nothing else provides a hint.
+            if id == TypeId::of::<NoneLayerMarker>() && self.is_empty() {
+                return Some(NonNull::from(&NONE_LAYER_MARKER).cast());
             }
 
             // Someone is looking for per-subscriber filters. But, this `Vec`
